@@ -198,6 +198,22 @@ void ref_mantis_crypt(uint8_t out[8], const uint8_t in[8], const uint8_t key[16]
     pack64(out, g);
 }
 
+
+/* ---------- single rounds (replay of inductive-step counterexamples) ---------- */
+void ref_round128(uint8_t g[16], const uint8_t rk[8], int inverse)
+{
+    if (!inverse) spec128_round(g, rk); else spec128_inv_round(g, rk);
+}
+void ref_round64(uint8_t out[8], const uint8_t in[8], const uint8_t rk[4], int inverse)
+{
+    uint8_t g[16], k[8];
+    int i;
+    unpack64(g, in);
+    for (i = 0; i < 4; ++i) { k[2 * i] = rk[i] >> 4; k[2 * i + 1] = rk[i] & 0xF; }
+    if (!inverse) spec64_round(g, k); else spec64_inv_round(g, k);
+    pack64(out, g);
+}
+
 /* ---------- big-endian counter arithmetic ---------- */
 void ref_counter_add(uint8_t *ctr, unsigned len, uint64_t add)
 {
